@@ -33,6 +33,8 @@ pub struct Ctx {
     pub replay: Option<String>,
     /// very small workloads (the run is interpreted by Miri)
     pub tiny: bool,
+    /// run only the work shards i with i % of == k (process-level sharding, used under Miri)
+    pub shard: Option<(usize, usize)>,
 }
 
 impl Ctx {
